@@ -2,5 +2,6 @@
    sumbool, sumor are mapped to OCaml's types; nat, N, positive, Z stay Coq datatypes. *)
 From Coq Require Import Extraction ExtrOcamlBasic.
 From LolModel Require Import Policy Rewriter.
+From LolSpec Require Import CssSem.
 Extraction Language OCaml.
-Extraction "model.ml" l1_case l2_case.
+Extraction "model.ml" l1_case l2_case css_expected.
